@@ -6,6 +6,7 @@ Exploration: on states of the C03 generator, every subset of the six filter kind
 required, resources} in every spelling the microversion admits (repeated member_of, in:, !, !in:, repeated required,
 required=in:, !trait) is sent to `GET /resource_providers` and evaluated by the compiled Lean specification on the
 dump of the real tables; status and the SET of uuids must agree."""
+from harness import ppool
 import copy
 import hashlib
 import json
@@ -368,7 +369,7 @@ def run(chk):
     ctx = mp.get_context('fork')
     seeds = [chk.seed * 1000003 + i for i in range(n_states)]
     errors = []
-    with ctx.Pool(procs, initializer=cands.init_worker) as pool:
+    with ppool.Pool(ctx, procs, initializer=cands.init_worker) as pool:
         for res in pool.imap_unordered(case, [(s, nq) for s in seeds], chunksize=4):
             if 'error' in res:
                 errors.append(res['error'])
